@@ -453,6 +453,33 @@ func (p *Prog) ConstGlobal(g *ssa.Global) ssa.Value {
 	return p.constGlobals[g]
 }
 
+// readOnlyArrayParam: the pointer-to-array parameter is only indexed for loading (and measured).
+func readOnlyArrayParam(prm *ssa.Parameter) bool {
+	for _, r := range *prm.Referrers() {
+		switch x := r.(type) {
+		case *ssa.IndexAddr:
+			for _, r2 := range *x.Referrers() {
+				if u, ok := r2.(*ssa.UnOp); !ok || u.Op != token.MUL {
+					return false
+				}
+			}
+		case *ssa.UnOp:
+			if x.Op != token.MUL {
+				return false
+			}
+			for _, r2 := range *x.Referrers() {
+				if _, ok := r2.(*ssa.Index); !ok {
+					return false
+				}
+			}
+		case *ssa.DebugRef:
+		default:
+			return false
+		}
+	}
+	return true
+}
+
 // ConstTable: if the package variable g of a repository package is an array that is effectively constant - in the
 // repository it is only indexed and loaded, except for stores of constants to constant indexes in the package
 // initialiser (`var isLower = [256]bool{'a': true, ...}`) - the stored constants by index (absent = zero value).
@@ -543,6 +570,21 @@ func (p *Prog) ConstTable(g *ssa.Global) (map[int64]*ssa.Const, bool) {
 					}
 					if k, ok := x.Val.(*ssa.Const); !ok || k.Value != nil {
 						return fail()
+					}
+				case *ssa.Call:
+					// the table's address handed to a repository function that only reads through it
+					// (`inClass(&lowerBytes, c)`: class[c], len(class))
+					t := x.Call.StaticCallee()
+					if t == nil || !p.InRepo(t) || len(t.Blocks) == 0 {
+						return fail()
+					}
+					for ai, arg := range x.Call.Args {
+						if arg != ssa.Value(g) {
+							continue
+						}
+						if ai >= len(t.Params) || !readOnlyArrayParam(t.Params[ai]) {
+							return fail()
+						}
 					}
 				default:
 					return fail()
